@@ -95,6 +95,7 @@ def _ensure_attached():
             l_out = C._outcome_raise(outcome.exception)
         else:
             l_out = ("ok", outcome.value)
+        _STATE["active"] = False  # compare() may evaluate pipeline prefixes through the same entry point
         status, detail = compare(_STATE["spec"], _STATE["p_out"], l_out, _STATE["pc"])
         _STATE["status"], _STATE["detail"], _STATE["l_out"] = status, detail, l_out
         if status.startswith("fail"):
@@ -163,9 +164,9 @@ def _dedup_outs(outs):
     return res
 
 
-def _canon_out(o):
+def _canon_out(o, keep_nan: bool = False):
     if o[0] == "ok":
-        c, r = C.canon_rows(o[1])
+        c, r = C.canon_rows(o[1], keep_nan=keep_nan)
         return ("ok", c, r)
     return o
 
@@ -178,7 +179,8 @@ def classify(spec, data, l_outs, p_out) -> List[str]:
     universe, always_on = sem.flags_for_pair(PAIR)
     keys: List[str] = []
     for l_out in l_outs:
-        outcomes = {"pandas": _canon_out(p_out), "polars": _canon_out(l_out)}
+        # Polars keeps NaN distinct from null: the model must reproduce that too
+        outcomes = {"pandas": _canon_out(p_out), "polars": _canon_out(l_out, keep_nan=True)}
         D = sem.explain(spec, data, outcomes, universe=universe, always_on=always_on)
         if not D:
             return ["%s:unclassified:%s" % (PID, C.case_hash({"spec": spec, "data": {t: data[t] for t in C.spec_tables(spec)}}))]
